@@ -61,8 +61,59 @@ pub trait DtBounds {
     fn dt_bounds(&self) -> Option<(Option<f64>, Option<f64>)>;
 }
 
+/// The builder API *as a user calls it*: on the concrete type (`RungeKutta45::new()`,
+/// `builder.with_tolerance(..)`), where an inherent method of the same name takes precedence over
+/// the `IVPSolver` trait method. Generic code over `S: IVPSolver` can only ever reach the trait
+/// items, so a convenience constructor or setter added as an inherent method (and behaving
+/// differently) would be invisible to it. These methods are implemented per concrete type by the
+/// macro below, inside an `impl` whose `Self` is the concrete type, which is where method
+/// resolution looks at inherent items first.
+pub trait AsCalled<N: Scalar, D: Dimension, U>: Sized
+where
+    DefaultAllocator: Allocator<N, D>,
+{
+    type Iter;
+    fn c_new() -> Result<Self, IVPError>;
+    fn c_new_dyn(n: usize) -> Result<Self, IVPError>;
+    fn c_tol(self, v: f64) -> Result<Self, IVPError>;
+    fn c_max(self, v: f64) -> Result<Self, IVPError>;
+    fn c_min(self, v: f64) -> Result<Self, IVPError>;
+    fn c_start(self, v: f64) -> Result<Self, IVPError>;
+    fn c_end(self, v: f64) -> Result<Self, IVPError>;
+    fn c_ic_slice(self, y: &[N]) -> Result<Self, IVPError>;
+    fn c_ic(self, y: BVector<N, D>) -> Result<Self, IVPError>;
+    fn c_deriv(self, f: DerivBox<N, D, U>) -> Self;
+    fn c_solve(self, data: U) -> Result<Self::Iter, IVPError>;
+}
+
+macro_rules! impl_as_called {
+    ($T:ident, $N:ty, $D:ty, $U:ty) => {
+        impl AsCalled<$N, $D, $U> for $T<'static, $N, $D, $U, DerivBox<$N, $D, $U>> {
+            type Iter = IVPIterator<$D, <Self as IVPSolver<'static, $D>>::Solver>;
+            fn c_new() -> Result<Self, IVPError> { Self::new() }
+            fn c_new_dyn(n: usize) -> Result<Self, IVPError> { Self::new_dyn(n) }
+            fn c_tol(self, v: f64) -> Result<Self, IVPError> { self.with_tolerance(v) }
+            fn c_max(self, v: f64) -> Result<Self, IVPError> { self.with_maximum_dt(v) }
+            fn c_min(self, v: f64) -> Result<Self, IVPError> { self.with_minimum_dt(v) }
+            fn c_start(self, v: f64) -> Result<Self, IVPError> { self.with_initial_time(v) }
+            fn c_end(self, v: f64) -> Result<Self, IVPError> { self.with_ending_time(v) }
+            fn c_ic_slice(self, y: &[$N]) -> Result<Self, IVPError> { self.with_initial_conditions_slice(y) }
+            fn c_ic(self, y: BVector<$N, $D>) -> Result<Self, IVPError> { self.with_initial_conditions(y) }
+            fn c_deriv(self, f: DerivBox<$N, $D, $U>) -> Self { self.with_derivative(f) }
+            fn c_solve(self, data: $U) -> Result<Self::Iter, IVPError> { self.solve(data) }
+        }
+    };
+}
+
 macro_rules! impl_dt_bounds {
     ($($N:ty, $D:ty, $U:ty);* $(;)?) => {$(
+        impl_as_called!(Euler, $N, $D, $U);
+        impl_as_called!(RungeKutta45, $N, $D, $U);
+        impl_as_called!(RungeKutta23, $N, $D, $U);
+        impl_as_called!(Adams5, $N, $D, $U);
+        impl_as_called!(Adams3, $N, $D, $U);
+        impl_as_called!(BDF6, $N, $D, $U);
+        impl_as_called!(BDF2, $N, $D, $U);
         impl DtBounds for Euler<'static, $N, $D, $U, DerivBox<$N, $D, $U>> {
             fn dt_bounds(&self) -> Option<(Option<f64>, Option<f64>)> { None }
         }
@@ -173,6 +224,7 @@ pub trait Visitor {
                 UserData = U,
                 Derivative = DerivBox<N, D, U>,
             > + DtBounds
+            + AsCalled<N, D, U, Iter = IVPIterator<D, <S as IVPSolver<'static, D>>::Solver>>
             + 'static,
         S::Solver: SolverBounds + 'static;
 }
@@ -394,6 +446,7 @@ where
             UserData = U,
             Derivative = DerivBox<N, D, U>,
         > + DtBounds
+        + AsCalled<N, D, U, Iter = IVPIterator<D, <S as IVPSolver<'static, D>>::Solver>>
         + 'static,
     S::Solver: SolverBounds + 'static,
 {
@@ -407,14 +460,14 @@ where
         let hooks = self.hooks.clone();
         let r = catch_unwind(AssertUnwindSafe(move || -> Result<S, IVPError> {
             match *op {
-                BOp::Tol(v) => b.with_tolerance(v),
-                BOp::Max(v) => b.with_maximum_dt(v),
-                BOp::Min(v) => b.with_minimum_dt(v),
-                BOp::Start(v) => b.with_initial_time(v),
-                BOp::End(v) => b.with_ending_time(v),
-                BOp::IcSlice => b.with_initial_conditions_slice(&initial_state::<N>(n, y0)),
-                BOp::IcVec => b.with_initial_conditions(make_vec::<N, D>(n, &initial_state::<N>(n, y0))),
-                BOp::Deriv => Ok(b.with_derivative(make_deriv::<N, D, U>(hooks))),
+                BOp::Tol(v) => b.c_tol(v),
+                BOp::Max(v) => b.c_max(v),
+                BOp::Min(v) => b.c_min(v),
+                BOp::Start(v) => b.c_start(v),
+                BOp::End(v) => b.c_end(v),
+                BOp::IcSlice => b.c_ic_slice(&initial_state::<N>(n, y0)),
+                BOp::IcVec => b.c_ic(make_vec::<N, D>(n, &initial_state::<N>(n, y0))),
+                BOp::Deriv => Ok(b.c_deriv(make_deriv::<N, D, U>(hooks))),
                 BOp::New | BOp::NewDyn(_) | BOp::Solve => unreachable!("not a setter"),
             }
         }));
@@ -441,7 +494,7 @@ where
             Some(b) => b,
             None => return (Outcome::Panic, None),
         };
-        match catch_unwind(AssertUnwindSafe(move || b.solve(U::fresh()))) {
+        match catch_unwind(AssertUnwindSafe(move || b.c_solve(U::fresh()))) {
             Ok(Ok(it)) => (Outcome::Ok, Some(Box::new(it))),
             Ok(Err(e)) => (Outcome::Err(ErrClass::of(&e)), None),
             Err(p) => (panic_outcome(p), None),
@@ -484,14 +537,15 @@ impl<'a> Visitor for Construct<'a> {
                 UserData = U,
                 Derivative = DerivBox<N, D, U>,
             > + DtBounds
+            + AsCalled<N, D, U, Iter = IVPIterator<D, <S as IVPSolver<'static, D>>::Solver>>
             + 'static,
         S::Solver: SolverBounds + 'static,
     {
         let ctor = *self.ctor;
         let r = catch_unwind(AssertUnwindSafe(move || -> Result<S, IVPError> {
             match ctor {
-                BOp::New => S::new(),
-                BOp::NewDyn(k) => S::new_dyn(k as usize),
+                BOp::New => S::c_new(),
+                BOp::NewDyn(k) => S::c_new_dyn(k as usize),
                 _ => unreachable!("not a constructor"),
             }
         }));
